@@ -1,3 +1,5 @@
+//go:build go1.25
+
 package checks
 
 import (
